@@ -984,6 +984,10 @@ where
                 handler.discard(DiscardReason::Shutdown, &mut msg);
             }
         }
+        // jobs parked in the per-worker queues (worker-queueing routers) are shut down the same way
+        for worker_props in state.pool.values_mut() {
+            worker_props.discard_queued_jobs(DiscardReason::Shutdown);
+        }
 
         // cleanup the pool and wait for it to exit
         for worker_props in state.pool.values() {
